@@ -17,7 +17,7 @@ PROP = 'C08'
 LEVEL = 'exploration'
 RULE = ('random histories (<= 50 operations) on maps opened without preserve_ids: creation of entities, brushes, faces, '
         'visgroups, groups with desired IDs (duplicates, 0, negatives, huge, -1), copy() within and across maps, '
-        'remove()/remove_ent/remove_brush, dropping the last reference + gc.collect(), re-adding a removed object, '
+        'remove()/remove_ent/remove_brush, dropping the last reference + gc.collect(), re-adding a removed object, creations rejected by the constructor (then collected), '
         'nodeid keys set/changed/deleted, fixup set/delete/copy with explicit duplicate replaceNN indexes, '
         'VMF.parse of documents with duplicated / missing / zero IDs, and instance collapses (collapse_one) of a '
         'template into the map. After every operation all objects reachable from each map are scanned: IDs unique '
@@ -133,7 +133,7 @@ class Hist:
         vmf = self.maps[mi]
         op = rng.choice(['ent', 'ent', 'brush_ent', 'solid', 'side', 'vis', 'group', 'copy_ent', 'copy_ent_other', 'copy_solid',
                          'remove_ent', 'remove_ent', 'drop', 'drop', 'readd', 'readd', 'remove_brush', 'nodeid', 'nodeid_change',
-                         'fixup', 'fixup_copy', 'parse_dups', 'collapse', 'copy_side', 'copy_vis', 'copy_group'])
+                         'fixup', 'fixup_copy', 'parse_dups', 'collapse', 'copy_side', 'copy_vis', 'copy_group', 'failed_create'])
         try:
             if op == 'ent':
                 d = rng.choice(IDS)
@@ -312,6 +312,28 @@ class Hist:
                 self.log.append(f'{op} map{mi} := parse(document with ids {ids})')
                 del vmf
                 gc.collect()
+            elif op == 'failed_create':
+                # creations rejected by the constructor (wrong arguments); the half-built object is then collected.
+                # Nothing becomes live, but the attempt must not disturb the IDs of live objects or the allocator.
+                kind = rng.choice(('side-planes', 'solid-visgroups', 'entity-fixup', 'visgroup-id'))
+                import sys as _sys
+                old_hook = _sys.unraisablehook
+                _sys.unraisablehook = lambda *a: None  # a half-built object's __del__ may raise AttributeError: only noise
+                try:
+                    if kind == 'side-planes':
+                        Side(vmf, [Vec(), Vec(1, 0, 0)], des_id=rng.choice(IDS))
+                    elif kind == 'solid-visgroups':
+                        Solid(vmf, rng.choice(IDS + [s.id for s in vmf.brushes][:3]), [], visgroup_ids=5)  # type: ignore
+                    elif kind == 'entity-fixup':
+                        Entity(vmf, keys={'classname': 'x'}, ent_id=rng.choice(IDS + [e.id for e in vmf.entities][:3]), fixup=[1, 2])  # type: ignore
+                    else:
+                        VisGroup(vmf, 'v', 'not-a-number')  # type: ignore
+                    self.log.append(f'{op} map{mi} {kind}: unexpectedly accepted')
+                except (ValueError, TypeError, AttributeError) as exc:
+                    self.log.append(f'{op} map{mi} {kind}: rejected with {type(exc).__name__}')
+                gc.collect()
+                _sys.unraisablehook = old_hook
+                self.released = True
             elif op == 'collapse':
                 self.collapse(vmf, mi)
         except Exception as exc:
